@@ -7,6 +7,18 @@ TRUST = ("Trusted base: the independent reference implementations in /verif/inte
          "the kernel's page protection. amd64 assembly and portable Go only; no arm hardware.")
 
 CHECKS = {
+ "C05": dict(cat="exploration", tech="differential runtime monitoring on corrupted frames: whenever the real Reader ends cleanly, an independent frame parser is run on exactly the consumed bytes (counting source) and must accept them and yield the same output",
+   text="Seed frames of the option combinations are corrupted by every single-bit flip of every structural field (with and without repairing the header checksum), block delete/duplicate/swap/insert/splice (with and without repairing the content checksum), payload flips (with and without repairing the block checksum), multi-bit flips, substitutions and hostile field values; each mutant is read with several concurrency/read-mode combinations. The evidence counts how many mutants the Reader accepted and that the oracle agreed on each.",
+   ref="6/C05"),
+ "C06": dict(cat="fault_enumeration", tech="crash-point enumeration: every prefix length of small frames (structural boundaries +-3 and seeded cuts for large ones) read by real Readers; verdict from the returned error and delivered bytes",
+   text="Every cut position 1..len-1 of 25 small seed frames (all option combinations that change the layout, legacy, dependent blocks) is executed against Readers with concurrency {1,2,4} through Read (buffered and direct) and WriteTo: no clean end of stream, delivered bytes are a prefix. For the three large frames cuts are enumerated at every field boundary +-3 plus seeded interior positions.",
+   ref="6/C06"),
+ "C07": dict(cat="exploration", tech="hostile-input stress in child processes with monitors: panic recovery, process-death classification (stack overflow, fault), step budgets (runaway loop), peak-memory monitor (VmHWM + MemStats.Sys), first-word classifier, exact-skip check",
+   text="Random, mutated and grammar-built hostile streams and 10M-fold repetitions of a single field are fed to real Readers (concurrency 1 and 4, Read and WriteTo) inside child processes; a child that dies is itself the observation. Liveness is restated as bounded progress on finite budgeted sources. Memory growth is bounded by 64 MiB + (3*concurrency+4) x block maximum.",
+   ref="6/C07"),
+ "C17": dict(cat="exploration", tech="model-based runtime monitoring of call histories: exhaustive enumeration of all call sequences up to length 4 (thorough 5) over parameterised Writer and Reader alphabets plus seeded long and directed sequences, executed on the real objects under an executable lifecycle model, an in-process state-based deadlock monitor, budgeted sinks/sources and differential replay on fresh objects",
+   text="170k histories (quick) are executed on sequential and concurrent objects. The model asserts only the clauses of the property; deadlock is decided from goroutine states (every goroutine inside the library parked, none runnable), runaway loops from call budgets. Sequences beyond the bound are sampled.",
+   ref="6/C17"),
  "C01": dict(cat="exploration", tech="differential runtime monitoring: every compressor entry point (package function, fresh, long-lived reused object incl. failed calls in its history; fast and HC at 17 depths) on a class-structured seeded source stream, decoded by the library and by an independent reference decoder",
    text="Real compress/decompress executions over sources built to hit the anchored mechanisms (window edge 65534..65537 with dense runs so the scan reaches it, 16-bit table aliasing beyond 64 KiB, multi-byte length codes, tails around the 14-byte limit, all strings over {a,b} up to length 12/17, sizes to 4 MiB); the evidence counts what the emitted blocks actually contained (offset 65535, matches after 64 KiB, multi-byte lengths). Held on the executions observed; inputs are sampled.",
    ref="6/C01"),
